@@ -8,7 +8,7 @@ from vlib import core, gen
 PROP = "C18"
 META = {
     "technique": "Coq proof: invariant of the read buffer (window = received-but-unconsumed part of the stream) over all sequences of kernel read sizes and commit sizes incl. growth, compaction and shrink; induction over all kernel answers for write; inductive invariant over all schedules of the writing-flag protocol (mutual exclusion, contiguous events); tie: differential execution of the real connEventHandler over socketpairs, callback geometry replayed on the model",
-    "level_text": "C18_read / C18_read_bounds (every configuration, stream, read/commit sequence), C18_on_read_ready (the real onReadReady loop incl. the threshold callback is an instance of those sequences for every kernel that returns 1..count bytes), C18_write (every message and kernel answer sequence), C18_mutex / C18_contiguous (any number of writers, event sizes, every schedule) are proved in Coq. The model's buffer geometry is compared with the real connEventHandler at every callback of every generated transfer; an independent oracle checks on every callback that the buffer shown is the unconsumed bytes followed by the new ones and that everything written arrives exactly once, in order, events of concurrent writers intact.",
+    "level_text": "C18_wakeup / C18_wakeup_kept (an epoll event carrying EPOLLOUT or EPOLLRDHUP releases a writer parked after EAGAIN whatever else it carries; a notification that overtakes the writer is kept), C18_read / C18_read_bounds (every configuration, stream, read/commit sequence), C18_on_read_ready (the real onReadReady loop incl. the threshold callback is an instance of those sequences for every kernel that returns 1..count bytes), C18_write (every message and kernel answer sequence), C18_mutex / C18_contiguous (any number of writers, event sizes, every schedule) are proved in Coq. The model's buffer geometry is compared with the real connEventHandler at every callback of every generated transfer; an independent oracle checks on every callback that the buffer shown is the unconsumed bytes followed by the new ones and that everything written arrives exactly once, in order, events of concurrent writers intact.",
     "level_note": "Trusted: coqc kernel; the hand-written model; kernel socket semantics (read returns at most `count` bytes that were written, in order); the read sizes chosen by the kernel are not observable, the replay uses the fact that the geometry depends only on the number of bytes between two callbacks; EAGAIN / partial writes are provoked by small socket buffers but not counted; doWritev is modelled (iovec bookkeeping) but only write is exercised and proved, the session never calls writev; sequential consistency of the writing flag.",
 }
 
@@ -73,10 +73,33 @@ def eval_cases(cases, cfg, tag):
     return bad
 
 
-def run_harness(n, nbig, seed, tag):
+def eval_dispatch(cases, tag):
+    """handleEvent dispatch table observed on the implementation vs. the model's handle_event"""
+    ds = [d for c in cases if c["kind"] == "dispatch" for d in (c.get("disp") or [])]
+    if not ds:
+        return ["no dispatch observations in the harness output"]
+    b = lambda x: "true" if x else "false"
+    txt = ["From Coq Require Import List ZArith.", "From Shm Require Import Model.EventConn Corr.EventConnCorr.",
+           "Import ListNotations.", "Definition ds : list dcase := [",
+           ";\n".join("{| dc_rdhup := %s; dc_in := %s; dc_out := %s; dc_ran_close := %s; dc_ran_read := %s; dc_ran_write := %s |}"
+                      % (b(d["rdhup"]), b(d["in"]), b(d["out"]), b(d["ran_close"]), b(d["ran_read"]), b(d["ran_write"])) for d in ds), "].",
+           "Definition M := Eval vm_compute in dispatch_mismatches ds.", "Print M."]
+    rc, out, _ = core.coq_eval("cases_%s_disp_%s_%d" % (PROP, tag, os.getpid()), "\n".join(txt))
+    if rc != 0:
+        raise RuntimeError("coqc on the dispatch cases failed: " + out[-1500:])
+    m = re.search(r"M\s*=\s*(.*?)\s*:\s*list", out, re.S)
+    body = m.group(1).strip() if m else "?"
+    if body == "[]":
+        return []
+    return ["handleEvent ran other handlers than the model for event mask rdhup=%s in=%s out=%s (ran close=%s read=%s write=%s)"
+            % (ds[int(i)]["rdhup"], ds[int(i)]["in"], ds[int(i)]["out"], ds[int(i)]["ran_close"], ds[int(i)]["ran_read"], ds[int(i)]["ran_write"])
+            for i in re.findall(r"(\d+)", body.replace("%nat", "")) if int(i) < len(ds)] or ["unparsed: " + body[:200]]
+
+
+def run_harness(n, nbig, seed, tag, nbidir=3):
     outp = os.path.join(core.WORK, "c18_%s_%d.jsonl" % (tag, os.getpid()))
     rc, out, secs = core.go_test(PROP, "^TestVerif_C18$", {"VERIF_OUT": outp, "VERIF_N": str(n), "VERIF_NBIG": str(nbig),
-                                                            "VERIF_SEED": str(seed)}, timeout=2400)
+                                                            "VERIF_NBIDIR": str(nbidir), "VERIF_SEED": str(seed)}, timeout=2400)
     if rc != 0:
         try:
             os.unlink(outp)
@@ -89,7 +112,8 @@ def run_harness(n, nbig, seed, tag):
 
 
 def slim(c, at=None):
-    d = {k: c.get(k) for k in ("id", "kind", "sndbuf", "rcvbuf", "sizes", "total", "policy", "writers", "events", "init_len", "feat")}
+    d = {k: c.get(k) for k in ("id", "kind", "net", "sndbuf", "rcvbuf", "sizes", "total", "policy", "writers", "events", "init_len",
+                               "parked_at", "acks", "disp", "feat") if c.get(k) is not None}
     cbs = c.get("cbs") or []
     if at is not None and at >= 0:
         d["callbacks_around_divergence"] = {"first_index": max(0, at - 3), "callbacks(len,start,window,consumed)": cbs[max(0, at - 3):at + 2]}
@@ -115,8 +139,8 @@ def check(run):
     for e in errs:
         run.add_corr_break("G: " + e)
     run.proof = core.proof_step(PROP, run.tier)
-    n, nbig = (60, 2) if run.tier == "quick" else (2000, 40)
-    cases, err = run_harness(n, nbig, run.seed, run.tier)
+    n, nbig, nbidir = (60, 2, 3) if run.tier == "quick" else (2000, 40, 30)
+    cases, err = run_harness(n, nbig, run.seed, run.tier, nbidir)
     if err:
         run.add_corr_break("D: " + err)
         cases = []
@@ -131,10 +155,16 @@ def check(run):
         for (c, at) in bad[:20]:
             run.add_corr_break("D: case %s (%s): buffer geometry at callback %d differs from the model" % (c.get("id"), c.get("kind"), at),
                                slim(c, at))
+        try:
+            for what in eval_dispatch(cases, run.tier):
+                run.add_corr_break("D: " + what, [c.get("disp") for c in cases if c["kind"] == "dispatch"][:1])
+        except RuntimeError as ex:
+            run.add_corr_break("D: model evaluation failed: %s" % ex)
     feats, distinct = {}, 0
     for c in cases:
         fs = set(c.get("feat") or [])
-        if fs & {"buffer-grew", "buffer-shrank", "nonzero-start", "partial-consumption", "zero-consumption", "concurrent-writers", "message>sndbuf"}:
+        if fs & {"buffer-grew", "buffer-shrank", "nonzero-start", "partial-consumption", "zero-consumption", "concurrent-writers", "message>sndbuf",
+                 "bidirectional", "dispatch-all-event-masks"}:
             distinct += 1
         for f in fs:
             feats[f] = feats.get(f, 0) + 1
@@ -150,11 +180,14 @@ def check(run):
         "bytes_transferred": sum(c.get("total") or 0 for c in cases),
         "sndbuf_values": sorted({c["sndbuf"] for c in cases}), "rcvbuf_values": sorted({c["rcvbuf"] for c in cases}),
         "policies": sorted({(c.get("policy") or {}).get("kind") or "events" for c in cases}),
+        "kinds": {k: sum(1 for c in cases if c["kind"] == k) for k in sorted({c["kind"] for c in cases})},
+        "bidirectional_parked_at": [c.get("parked_at") for c in cases if c["kind"] == "bidir"][:10],
     })
     run.assumptions += [
         "kernel socket semantics: read(2) returns between 1 and `count` of the bytes written, in order; write(2) accepts between 1 and the remaining bytes or fails with EAGAIN",
         "the kernel's individual read sizes are not observed; the replay relies on the geometry depending only on the number of bytes delivered between two callbacks",
         "sequential consistency of Session.writing (atomic CAS / store) and of the channel operations",
+        "epoll: a readiness change of a registered fd is reported by at least one event whose mask contains it (edge-triggered); which other bits share that event is arbitrary and quantified over",
         "connEventHandler.writev/doWritev is modelled but not proved nor exercised (no caller in the library; it would index an empty slice out of range)",
         "the three buffer-size literals are read from event_dispatcher_linux.go by pattern; the theorems hold for every value"]
 
